@@ -71,12 +71,13 @@ pub fn check_xml_shape(xml: &str) -> Result<()> {
             continue;
         }
         let rest = &xml[i..];
+        // The end markers are searched behind the start markers, "<!-->" does not end a comment
         if rest.starts_with("<!--") {
-            i += rest.find("-->").map(|p| p + 3).unwrap_or(rest.len());
+            i += rest[4..].find("-->").map(|p| p + 7).unwrap_or(rest.len());
         } else if rest.starts_with("<![CDATA[") {
-            i += rest.find("]]>").map(|p| p + 3).unwrap_or(rest.len());
+            i += rest[9..].find("]]>").map(|p| p + 12).unwrap_or(rest.len());
         } else if rest.starts_with("<?") {
-            i += rest.find("?>").map(|p| p + 2).unwrap_or(rest.len());
+            i += rest[2..].find("?>").map(|p| p + 4).unwrap_or(rest.len());
         } else if rest.starts_with("<!") {
             // Document type declarations are refused by the parser anyway
             i += 2;
